@@ -474,6 +474,19 @@ func TestC04Exhaustive(t *testing.T) {
 			}
 		}
 	}
+	// Maurer with one pattern planted at distances around 2^15, 2^16 and 2^17 blocks (10^6 bits), through all entry points
+	if shard == 0 {
+		for i, d := range []int{32767, 32768, 65535, 65536, 65537, 131072} {
+			q := gen.Seq{Family: "uniform", N: 1000000, Seed: uint64(90 + i)}
+			c := c04Case{Test: "maurer", Seq: &q, Runner: true, Plant: []int{17 * (i + 1), 1300 + i, 1300 + i + d}}
+			if i%2 == 1 {
+				c.Plant = []int{17 * (i + 1), 1 + i, 1 + i + d, 1 + i + 2*d} // first occurrence inside the initialisation segment
+			}
+			if _, err := judge("C04", c, checkC04, false); err != nil {
+				t.Fatalf("C04: %v", err)
+			}
+		}
+	}
 	// rank and Maurer beyond 2^20 bits, with matrix / block counts that are not multiples of 2, 4 or 8
 	if shard == 0 {
 		bigRank := c04Case{Test: "rank", Tail: 5, Seed: 77, Runner: false}
